@@ -3,6 +3,7 @@ package checks
 import (
 	"bytes"
 	"fmt"
+	"sort"
 	"testing"
 	"time"
 
@@ -10,6 +11,7 @@ import (
 	"p9verif/mockfs"
 	"p9verif/peers"
 	"p9verif/refcodec"
+	"p9verif/vconn"
 
 	"github.com/hugelgupf/p9/p9"
 	"pgregory.net/rapid"
@@ -122,6 +124,10 @@ type wireCase struct {
 	Msg     *refcodec.Msg `json:"msg"`
 	RawPerm uint32        `json:"raw_perm,omitempty"` // upper bits put on the wire in a permission field
 	RawMask uint64        `json:"raw_mask,omitempty"` // undefined bits put on the wire in a mask field
+	// Sock: the frame reaches the receiver through a real AF_UNIX socket (the
+	// vectorised receive path) in the chunks given by Splits
+	Sock   bool  `json:"sock,omitempty"`
+	Splits []int `json:"splits,omitempty"`
 }
 
 type wireStats struct {
@@ -155,7 +161,41 @@ func runWireCase(c wireCase, st *wireStats) *fail {
 	}
 	frame := refcodec.Encode(send)
 	want := refcodec.Encode(m) // permission fields masked, undefined mask bits gone
-	tag, typ, canon, kind, err := p9.VerifRecvReencode(bytes.NewReader(frame), 4<<20)
+	var tag uint16
+	var typ uint8
+	var canon []byte
+	var kind int
+	var err error
+	if c.Sock {
+		sock, serr := vconn.NewSock()
+		if serr != nil {
+			return failf("harness-sock", "HARNESS-ERROR %v", serr)
+		}
+		defer sock.Close()
+		sock.Conn.SetReadDeadline(time.Now().Add(30 * time.Second))
+		done := make(chan struct{})
+		go func() {
+			defer close(done)
+			tag, typ, canon, kind, err = p9.VerifRecvReencode(sock.Conn, 4<<20)
+		}()
+		prev := 0
+		for _, sp := range append(append([]int{}, c.Splits...), len(frame)) {
+			if sp <= prev || sp > len(frame) {
+				continue
+			}
+			if derr := sock.Deliver(frame[prev:sp], 10*time.Second); derr != nil {
+				return failf("reader-stalled", "%s: the receiver did not take bytes %d..%d of a %d-byte frame: %v", spec.Name, prev, sp, len(frame), derr)
+			}
+			prev = sp
+		}
+		select {
+		case <-done:
+		case <-time.After(20 * time.Second):
+			return failf("reader-stalled", "%s: the receiver did not return after the whole %d-byte frame was delivered in chunks %v", spec.Name, len(frame), c.Splits)
+		}
+	} else {
+		tag, typ, canon, kind, err = p9.VerifRecvReencode(bytes.NewReader(frame), 4<<20)
+	}
 	if kind != 0 {
 		return failf("wire:valid-frame-rejected:"+spec.Name, "a valid %s frame (%d bytes) was rejected: kind=%d err=%v; message %s", spec.Name, len(frame), kind, err, m)
 	}
@@ -431,6 +471,37 @@ func TestC01(t *testing.T) {
 		if len(frame) > 30 && len(frame) < 400 && h.WantSample("inprocess") {
 			h.Sample("inprocess", c)
 		}
+		return f
+	})
+	// (3b) the same through a real socket (vectorised receive path), the frame cut into chunks
+	rapidCases(h, "socket", env.PerShard(env.Pick(8000, 400000)), func(rt *rapid.T) wireCase {
+		c := wireCase{Msg: genMsgOfType(rt, rapid.SampledFrom(types).Draw(rt, "type")), Sock: true}
+		n := len(refcodec.Encode(c.Msg))
+		for k := rapid.IntRange(0, 3).Draw(rt, "nsplit"); k > 0 && n > 1; k-- {
+			lo := 1
+			if n > 8 && rapid.IntRange(0, 3).Draw(rt, "inbody") != 0 {
+				lo = 8 // mostly inside the body
+			}
+			c.Splits = append(c.Splits, rapid.IntRange(lo, n-1).Draw(rt, "split"))
+		}
+		sort.Ints(c.Splits)
+		return c
+	}, func(c wireCase) *fail {
+		f := runWireCase(c, nil)
+		frame := refcodec.Encode(c.Msg)
+		var sp []uint32
+		inBody := false
+		for _, x := range c.Splits {
+			sp = append(sp, uint32(x))
+			inBody = inBody || x > 7
+		}
+		cls := "socket:whole"
+		if inBody {
+			cls = "socket:split-inside-body"
+		} else if len(c.Splits) > 0 {
+			cls = "socket:split-inside-header"
+		}
+		h.Case(evid.Hash64(frame, u32b(sp...)), len(c.Splits) > 0, cls)
 		return f
 	})
 	// (1)+(2) at the connection: real client, tap, real server, recording backend
